@@ -63,7 +63,11 @@ ParseChecks(r, mode) ==
       diff == IF Len(f) = 6 /\ Len(fb) = 6 THEN {i \in 1..6 : f[i] # fb[i]} ELSE {}
       i == IF Cardinality(diff) = 1 THEN CHOOSE j \in diff : TRUE ELSE 0
       aspect == IF i = 1 THEN "board" ELSE IF i = 3 THEN "rights" ELSE IF i = 4 THEN "ep" ELSE IF i = 5 THEN "hmc" ELSE IF i = 6 THEN "fmn" ELSE "none"
-      fieldBad == i # 0 /\ (FieldMalformed(f, i, mode) \/ (ds # {} /\ \A bs \in ds : WrongAspects(bs) = {aspect}))
+      \* a castling field no reader of this notation can accept: foreign characters, two rights for one (colour, wing),
+      \* a letter on the king's own file (the placement is the base's, hence sound)
+      crBad(md) == ~CrAlphabetOk(f[3], md) \/ (PlacementSound(f[1]) /\ ~CrWellFormed(f[3], PlacementOf(f[1]), md))
+      crBadAll == i = 3 /\ (IF mode = 2 THEN crBad(0) /\ crBad(1) ELSE crBad(mode))
+      fieldBad == i # 0 /\ (FieldMalformed(f, i, mode) \/ crBadAll \/ (ds # {} /\ \A bs \in ds : WrongAspects(bs) = {aspect}))
       truncated == Len(r.base) > 0 /\ Len(f) >= 1 /\ Len(f) <= 5 /\ Len(fb) = 6 /\ \A j \in 1..Len(f) : f[j] = fb[j]
       extended == Len(r.base) > 0 /\ Len(f) > 6 /\ Len(fb) = 6 /\ SubSeq(f, 1, 6) = fb /\ \A j \in 7..Len(f) : Len(f[j]) > 0
   IN
@@ -72,6 +76,7 @@ ParseChecks(r, mode) ==
   \cup IF_(ok /\ ds # {} /\ \A bs \in ds : got # AsPos(bs), {<<"C08", "board-is-not-the-position-the-text-denotes", mode, r.t>>})
   \cup IF_(ok /\ OneKingEach(got) /\ ~Valid(got), {<<"C06", "parser-accepts-unsound-position", mode, r.t, Broken(got)>>})
   \cup IF_(ok /\ ~OneKingEach(got), {<<"C06", "parser-accepts-unsound-position", mode, r.t, {"kings"}>>})
+  \cup IF_(ok /\ x.hb # x.st.h, {<<"C10", "hash-of-parsed-board-differs-from-rebuilt-board", mode, r.t, x.st.h, x.hb>>})
   \cup IF_(canonOk /\ fieldBad /\ (x.k # "err" \/ x.err # FieldError(i)), {<<"C08", "error-does-not-name-the-bad-field", mode, i, x.k, x.err, r.t>>})
   \cup IF_(canonOk /\ truncated /\ (x.k # "err" \/ x.err # "MissingField"), {<<"C08", "too-few-fields-not-reported", mode, x.k, x.err, r.t>>})
   \cup IF_(canonOk /\ extended /\ (x.k # "err" \/ x.err # "TooManyFields"), {<<"C08", "too-many-fields-not-reported", mode, x.k, x.err, r.t>>})
